@@ -137,6 +137,22 @@ impl<'a> OperationVisitorContext<'a> {
     }
 }
 
+/// Verification hook (compiled only with `--cfg graphql_tools_rs_verif`): exposes the depths of
+/// the six private context stacks so that a harness can observe that a walk left them empty.
+#[cfg(graphql_tools_rs_verif)]
+impl<'a> OperationVisitorContext<'a> {
+    pub fn verif_stack_depths(&self) -> [usize; 6] {
+        [
+            self.type_stack.len(),
+            self.parent_type_stack.len(),
+            self.input_type_stack.len(),
+            self.type_literal_stack.len(),
+            self.input_type_literal_stack.len(),
+            self.field_stack.len(),
+        ]
+    }
+}
+
 pub fn visit_document<'a, Visitor, UserContext>(
     visitor: &mut Visitor,
     document: &'a Document,
